@@ -95,24 +95,36 @@ func (c *serverConn) onEIOPacket(packets ...*eioparser.Packet) {
 }
 
 func (c *serverConn) onParserFinish(header *parser.PacketHeader, eventName string, decode parser.Decode) {
-	go func() {
-		if header.Namespace == "" {
-			header.Namespace = "/"
-		}
-		socket, ok := c.sockets.getByNsp(header.Namespace)
+	if header.Namespace == "" {
+		header.Namespace = "/"
+	}
+	socket, ok := c.sockets.getByNsp(header.Namespace)
 
-		if header.Type == parser.PacketTypeConnect && !ok {
-			c.connect(header, decode)
-		} else if ok && header.Type != parser.PacketTypeConnect && header.Type != parser.PacketTypeConnectError {
+	switch {
+	case ok && (header.IsEvent() || header.Type == parser.PacketTypeDisconnect):
+		// Events are handled one at a time, in the order they were received
+		// (so is the DISCONNECT packet, it must not overtake the events sent before it).
+		socket.packetRunner.add(func() {
 			err := socket.onPacket(header, eventName, decode)
 			if err != nil {
 				c.onFatalError(err)
 			}
-		} else {
+		})
+	case header.Type == parser.PacketTypeConnect && !ok:
+		go c.connect(header, decode)
+	case ok && header.Type != parser.PacketTypeConnect && header.Type != parser.PacketTypeConnectError:
+		go func() {
+			err := socket.onPacket(header, eventName, decode)
+			if err != nil {
+				c.onFatalError(err)
+			}
+		}()
+	default:
+		go func() {
 			c.debug.Log("Invalid state", "packet type", header.Type)
 			c.close()
-		}
-	}()
+		}()
+	}
 }
 
 func (c *serverConn) connect(header *parser.PacketHeader, decode parser.Decode) {
